@@ -2,13 +2,14 @@
    Only ExtrOcamlBasic (bool, option, list, prod, unit, sumbool -> OCaml's own); nat, N, positive
    stay the extracted inductives.  No Extract Constant / Extract Inductive of our own. *)
 From Coq Require Import Extraction ExtrOcamlBasic List NArith.
-From ABNF Require Import Base Engine Cache AbnfRead Registry GenTypes Loader GenTables GenBundled Bundled Visit EngineProg Visitor Compile.
+From ABNF Require Import Base Engine Cache AbnfRead Registry GenTypes Loader GenTables GenBundled Bundled Visit EngineProg Visitor Compile RfcSpec.
 Extraction Language OCaml.
 Extraction "model.ml" lparse parse parse_all sh_id sh_rev of_list nsvalue
   cnew cget cset cdel clen citer cclear csetmax drop_stale
   read_rule read_rulelist read_elements is_rulename
   reg0 rget rnew create load_grammar import_rule set_flag get_flag set_excl rules_of grammar_of grammar_list
   define_rule define_rules normalise ensure_crlf
+  b1_classes r_rfc
   lib_create lib_load_grammar v_rulelist v_rule
   lparse_p parse_p parse_all_p run_traced run_cached upd ckey_eqb
   dispatch_key node_eqb visit node_name
